@@ -11,10 +11,12 @@
    History: finding D8 (the csr @ csr kernel stored unsorted rows under the GCXS constructor's
    unchecked promise) was repaired (fix cab5c1c); that site is now justified by schema
    RowsSortedByKernel and the kernel's rows are proved sorted (csr_csr_rows_strictly_increasing).
-   Still false on the code as it stands (found by this check, kept reported):
-   from_scipy_sparse of a SciPy matrix with unsorted rows (refuted below), GCXS getitem with None
-   and an integer (malformed 2-d GCXS without indptr) and einsum storing cancelled sums (both
-   found by the run-time judge; their producers are not modelled here). *)
+   from_scipy_sparse of a SciPy matrix with unsorted rows (found independently by this check and
+   C05) was repaired too (fix c3f2e26).
+   Still false on the code as it stands (found by this check's run-time judge, kept reported; the
+   producers are not modelled here, their sites are Unjustified in the table): GCXS getitem with
+   None and an integer (malformed 2-d GCXS without indptr), einsum storing cancelled sums, and the
+   csc @ ndarray / ndarray @ csr sparse-returning kernel (unsorted rows, miscounted indptr). *)
 From Coq Require Import String ZArith List Bool Sorting.Sorted.
 From Verif Require Import Shape COO COOP GCXS Ctor S_ctor_sites CtorP Prog ProgP.
 Import ListNotations.
@@ -98,32 +100,21 @@ Theorem constructor_defaults_promise_nothing :
 Proof. vm_compute. split; reflexivity. Qed.
 Print Assumptions constructor_defaults_promise_nothing.
 
-(* Full statement (no site's promise is false):
-     forallb (fun e => match j_just e with Refuted _ => false | _ => true end) site_justification = true.
-   It is FALSE of the code as it stands: the four from_scipy_sparse sites store SciPy's arrays as they
-   are, and SciPy's csr/csc format does not promise sorted rows (finding
-   "from_scipy_sparse_unsorted_indices", see from_scipy_promise_refuted).  These are the only ones: *)
-Theorem refuted_sites_are_from_scipy :
-  map (fun e => (j_func e, j_ord e))
-      (filter (fun e => match j_just e with Refuted _ => true | _ => false end) site_justification)
-  = [("CSC.from_scipy_sparse"%string, 0); ("CSR.from_scipy_sparse"%string, 0);
-     ("GCXS.from_scipy_sparse"%string, 0); ("GCXS.from_scipy_sparse"%string, 1)].
+(* no site's promise is known to be false *)
+Theorem no_refuted_site :
+  forallb (fun e => match j_just e with Refuted _ => false | _ => true end) site_justification = true.
 Proof. vm_compute. reflexivity. Qed.
-Print Assumptions refuted_sites_are_from_scipy.
+Print Assumptions no_refuted_site.
 
-Theorem from_scipy_promise_refuted :
-  exists m : gcxs Z, scipy_valid m = true /\ gcxs_wfb (gcxs_from_scipy m) = false.
-Proof. exact from_scipy_promise_refuted_proof. Qed.
-Print Assumptions from_scipy_promise_refuted.
-
-(* domain clause scipy_rows_sorted: SciPy's matrix has strictly increasing rows *)
-Theorem from_scipy_promise_partial :
+(* from_scipy_sparse stores the arrays of the (canonicalised) SciPy matrix: well formed when its
+   rows are sorted and duplicate-free, which _canonical_scipy asks SciPy to establish *)
+Theorem from_scipy_wf_when_rows_sorted :
   forall m : gcxs Z,
     scipy_valid m = true ->
     forallb strictly_increasing (rows_of (g_indices m) (g_indptr m)) = true ->
     gcxs_wfb (gcxs_from_scipy m) = true.
 Proof. exact from_scipy_partial_proof. Qed.
-Print Assumptions from_scipy_promise_partial.
+Print Assumptions from_scipy_wf_when_rows_sorted.
 
 (* ---- the schemas cited by the table *)
 
